@@ -35,6 +35,9 @@ inline bool deliver_F(Rng& r, uint64_t idx)
   w.tag = "dF" + std::to_string(idx);
   w.random_backend_options(r);
   if (r.chance(1, 4)) w.user_clock_mask = static_cast<uint32_t>(r.range(1, 31)); // some loggers stamp with a user clock that runs ahead
+  // ... and some with rdtsc (the library default), mixed with system-clock loggers on the same threads: delivery and
+  // per-thread order do not depend on the clock source
+  if (!w.user_clock_mask && r.chance(1, 4)) w.tsc_mask = static_cast<uint32_t>(r.range(1, 31));
   make_topology(w, r);
   uint32_t const nt = static_cast<uint32_t>(r.range(1, 10));
   g_delay.store(static_cast<uint32_t>(r.pick({0, 1, 1, 2})));
@@ -95,6 +98,7 @@ inline bool deliver_F(Rng& r, uint64_t idx)
     if (n.second.find("blocking occurrences") != std::string::npos) ++blocks;
   }
   stat_add("deliver_scenarios");
+  if (w.tsc_mask) stat_add("deliver_scenarios_with_tsc_loggers");
   stat_add("statements_issued", static_cast<long long>(all.size()));
   stat_add("queue_reallocations_reported", static_cast<long long>(allocs));
   stat_add("blocking_reports", static_cast<long long>(blocks));
